@@ -1,8 +1,139 @@
-(** C14: Reset/Remove clear exactly one target and announce it; targets are isolated. *)
-From Gnmi Require Import Base.Prelude CTree.CTreeModel Path.PathModel Cache.CacheModel Cache.MultiCache Cache.C14Proofs.
+(** C14: Reset/Remove clear exactly one target and announce it; targets are isolated.
 
-Theorem C14_remove_unknown_has : forall c now name,
-  cache_wf c -> name <> "*"%string ->
-  cache_has_target (fst (cache_remove c now name)) name = false.
-Proof. exact remove_unknown_has. Qed.
-Print Assumptions C14_remove_unknown_has.
+    Model: CacheModel.v (cache = list (string * target), per-target ingest path,
+    Reset, Remove, metadata) + MultiCache.v (one operation type for every call,
+    HasTarget / Query / Metadata observers, sequential STREAM subscribers).
+    [cinv] (distinct names; every target is well formed, keeps its name and
+    stores only notifications carrying its own name) holds in every reachable
+    state ([C14_invariant_all_histories]); the Reset / Remove / isolation
+    statements are proved from it. *)
+From Gnmi Require Import Base.Prelude CTree.CTreeModel CTree.CTreeProofs Path.PathModel
+  Cache.CacheModel Cache.MultiCache Cache.C14Proofs.
+Local Open Scope Z_scope.
+
+(** every history from any initial target list reaches a state satisfying the
+    invariant *)
+Theorem C14_invariant_all_histories : forall cfg names ops,
+  cinv (ms_cache (mrun (minit cfg names) ops)).
+Proof. exact reachable_cinv. Qed.
+Print Assumptions C14_invariant_all_histories.
+
+Theorem C14_invariant_step : forall c o, cinv c -> cinv (fst (fst (cstep c o))).
+Proof. exact cstep_cinv. Qed.
+Print Assumptions C14_invariant_step.
+
+(** isolation, one call: for every operation addressed to [t] (GnmiUpdate by
+    prefix target, Reset, Remove, Add, Sync, Connect, ConnectError) and every
+    other name [t']: the whole stored record of [t'] (tree, metadata, latest
+    timestamp, sync flag) is unchanged, so are HasTarget / Query / Metadata for
+    it, and every announced entry carries [t] *)
+Theorem C14_isolation_step : forall c o t t' c' r f,
+  cinv c -> op_addr o = AOne t -> t' <> t -> cstep c o = (c', r, f) ->
+  assoc t' (c_targets c') = assoc t' (c_targets c) /\
+  model_tobs c' t' = model_tobs c t' /\
+  Forall (fun n => ntgt n = t) (mfeed_list f).
+Proof. exact isolation_step. Qed.
+Print Assumptions C14_isolation_step.
+
+(** a call addressed to no target (no prefix; attaching a subscriber) changes
+    and announces nothing *)
+Theorem C14_isolation_none : forall c o c' r f,
+  op_addr o = ANone -> cstep c o = (c', r, f) -> c' = c /\ mfeed_list f = [].
+Proof. exact isolation_none. Qed.
+Print Assumptions C14_isolation_none.
+
+(** isolation, all histories: whatever sequence of calls addressed to other
+    targets (or to none) is made, [t'] is untouched and nothing announced
+    carries [t'] *)
+Theorem C14_isolation : forall t' ops c,
+  cinv c -> Forall (spares t') ops ->
+  assoc t' (c_targets (crun c ops)) = assoc t' (c_targets c) /\
+  model_tobs (crun c ops) t' = model_tobs c t' /\
+  Forall (fun n => ntgt n <> t') (run_feed c ops).
+Proof. exact isolation_history. Qed.
+Print Assumptions C14_isolation.
+
+(** Remove: unknown afterwards to HasTarget, Query, Metadata and GnmiUpdate;
+    exactly one entry is announced: the whole-target delete of that name *)
+Theorem C14_remove_forgets : forall c now name,
+  cinv c -> name <> "*"%string ->
+  let c' := fst (cache_remove c now name) in
+  cache_has_target c' name = false /\
+  target_dump c' name = None /\
+  target_meta c' name = None /\
+  (forall now' n pr, n_prefix n = Some pr -> gp_target pr = name ->
+     cache_gnmi_update c' now' n = (c', [], GErr err_no_target)) /\
+  snd (cache_remove c now name) = [delete_noti name "" now ["*"]] /\
+  is_target_delete (delete_noti name "" now ["*"]) = true /\
+  ntgt (delete_noti name "" now ["*"]) = name.
+Proof. exact remove_forgets. Qed.
+Print Assumptions C14_remove_forgets.
+
+(** ... which ends a running single-target stream of that name with status OK
+    right after forwarding it, while a stream on "*" forwards it and goes on *)
+Theorem C14_remove_ends_stream : forall name now,
+  name <> "*"%string -> name <> ""%string ->
+  sub_step [delete_noti name "" now ["*"]] (Sub name SRunning) =
+    (Sub name SEndedOk, [SUpd (delete_noti name "" now ["*"])]) /\
+  sub_step [delete_noti name "" now ["*"]] (Sub "*" SRunning) =
+    (Sub "*" SRunning, [SUpd (delete_noti name "" now ["*"])]).
+Proof. exact remove_ends_stream. Qed.
+Print Assumptions C14_remove_ends_stream.
+
+Theorem C14_ended_stream_silent : forall feed T st,
+  st <> SRunning -> sub_step feed (Sub T st) = (Sub T st, []).
+Proof. exact ended_stream_silent. Qed.
+Print Assumptions C14_ended_stream_silent.
+
+Theorem C14_star_stream_never_ends : forall feed,
+  fst (sub_step feed (Sub "*" SRunning)) = Sub "*" SRunning.
+Proof. exact star_stream_never_ends. Qed.
+Print Assumptions C14_star_stream_never_ends.
+
+(** Reset, leaves: nothing outside "meta" remains, and every leaf that was
+    stored outside "meta" is matched by an announced delete of this target
+    (origin = its first index element, path "*") *)
+Theorem C14_reset_clears_leaves : forall t now t' feed,
+  wf_tree (t_tree t) -> t_name t <> ""%string ->
+  target_reset t now = (t', feed, None) ->
+  (forall p0 rest v, lookup (t_tree t') (p0 :: rest) = Some v -> p0 = md_root) /\
+  (forall p0 rest v, lookup (t_tree t) (p0 :: rest) = Some v -> p0 <> md_root ->
+     In (delete_noti (t_name t) p0 now ["*"]) feed /\
+     qmatch [p0; "*"] (p0 :: rest) = true).
+Proof. exact reset_clears_leaves. Qed.
+Print Assumptions C14_reset_clears_leaves.
+
+(** Reset, metadata: back to the initial values (not synced, not connected,
+    counters and size 0, latest timestamp cleared) provided no stored metadata
+    leaf is newer than the clock.  The exported latestTimestamp is
+    [ts_unixnano None] = time.Time{}.UnixNano(), not 0: known finding KF-C14-1
+    (fixes/C14_1_zero_time_latest.diff), see [C14_reset_latest_refuted]. *)
+Theorem C14_reset_clears_meta : forall t now t' feed,
+  wf_tree (t_tree t) -> t_name t <> ""%string -> calm now t ->
+  target_reset t now = (t', feed, None) ->
+  md_get_bool (t_meta t') md_sync = Some false /\
+  md_get_bool (t_meta t') md_connected = Some false /\
+  Forall (fun k => md_get_int (t_meta t') k = Some 0) reset_counters /\
+  md_get_int (t_meta t') md_latest_ts = Some (ts_unixnano None) /\
+  md_get_str (t_meta t') md_connected_addr = Some ""%string /\
+  t_ts t' = None.
+Proof. exact reset_clears_meta. Qed.
+Print Assumptions C14_reset_clears_meta.
+
+(** "latest timestamp back to its initial value 0" is false of the faithful model *)
+Theorem C14_reset_latest_refuted : exists t now t' feed,
+  wf_tree (t_tree t) /\ t_name t <> ""%string /\ calm now t /\
+  target_reset t now = (t', feed, None) /\
+  md_get_int (t_meta (new_target (t_name t) (t_cfg t))) md_latest_ts = Some 0 /\
+  md_get_int (t_meta t') md_latest_ts <> Some 0.
+Proof. exact reset_latest_refuted. Qed.
+Print Assumptions C14_reset_latest_refuted.
+
+(** the hypotheses of the Reset theorems hold for every target of every
+    reachable cache *)
+Theorem C14_reachable_target : forall cfg names ops name t,
+  assoc name (c_targets (crun (new_cache cfg names) ops)) = Some t ->
+  wf_tree (t_tree t) /\ t_name t = name /\
+  (forall p v, lookup (t_tree t) p = Some v -> ntgt v = name).
+Proof. exact reachable_target. Qed.
+Print Assumptions C14_reachable_target.
